@@ -207,11 +207,13 @@ where
             },
             "sec" => match tok {
                 Some(DateToken::Number(ref s, None)) => {
-                    if let Some(value) = parse_range(s, 2, 0..=60) {
+                    // Second 60 is not accepted: date arithmetic does not
+                    // know about leap seconds, (d + t) - d would not be t.
+                    if let Some(value) = parse_range(s, 2, 0..=59) {
                         out.second = Some(value as u32);
                         Ok(())
                     } else {
-                        Err(format!("Expected 2-digit sec in range 0..=60, got {}", s))
+                        Err(format!("Expected 2-digit sec in range 0..=59, got {}", s))
                     }
                 }
                 Some(DateToken::Number(ref s, Some(ref f))) if s.len() == 2 && f.len() > 9 => {
@@ -224,6 +226,12 @@ where
                     let secs = u32::from_str_radix(&**s, 10);
                     let nsecs = u32::from_str_radix(&**f, 10);
                     if let (Ok(secs), Ok(nsecs)) = (secs, nsecs) {
+                        if secs > 59 {
+                            return Err(format!(
+                                "Expected 2-digit sec in range 0..=59, got {}.{}",
+                                s, f
+                            ));
+                        }
                         let nsecs = nsecs * 10u32.pow(9 - f.len() as u32);
                         out.second = Some(secs);
                         out.nanosecond = Some(nsecs);
